@@ -620,7 +620,20 @@ func (m *Machine) makeSlice(fr *frame, in *ssa.MakeSlice) Value {
 	if m.opaqueAlloc && isByteType(et) {
 		if l2 := m.rewrite(ln); !l2.IsConst() {
 			m.pc = append(m.pc, c.Cmp(OULe, cp, c.BV(lsliceMax, 64)))
-			return LSlice{Len: ln, Cap: cp}
+			// the first bytes (up to the length's known lower bound, at most 256) are tracked: zeroed
+			var head []Value
+			m.refreshFacts()
+			if r, ok := m.rangeOf(l2, 0); ok && r.lo > 0 {
+				n := r.lo
+				if n > 256 {
+					n = 256
+				}
+				head = make([]Value, n)
+				for i := range head {
+					head[i] = c.BV(0, 8)
+				}
+			}
+			return LSlice{Len: ln, Cap: cp, Head: head}
 		}
 	}
 	m.cutLen(cp)
